@@ -1150,7 +1150,7 @@ pub type Judge<'a> = &'a dyn Fn(&Prog, &ConcOut) -> Result<(bool, Vec<(&'static 
 /// bounded systematic exploration of the schedules of one program
 pub fn explore(pool: &Pool, prog: &Prog, budget: &Budget, opts: &ExecOpts, mk_probe: Option<ProbeMaker<'_>>, judge: Judge<'_>) -> Explored {
     let mut ex = Explored { schedules: 0, steps: 0, failure: None, nontrivial_schedules: Vec::new(), classes: BTreeMap::new() };
-    let mut run_one = |ex: &mut Explored, switches: Vec<(u64, u8)>, random: Option<(u64, u32)>, trace: bool| -> Option<ConcOut> {
+    let run_one = |ex: &mut Explored, switches: Vec<(u64, u8)>, random: Option<(u64, u32)>, trace: bool| -> Option<ConcOut> {
         if std::env::var_os("FVH_TRACE_SCHED").is_some() {
             eprintln!("schedule {:?} random {:?}", switches, random);
         }
